@@ -120,6 +120,49 @@ theorem new_currency_fraction (r r' : RegState) (mc : Nat) (code : String) (mino
     simp only [List.length_modify] at hlt
     simp [RegState.unit, List.getD_eq_getElem?_getD, List.getElem?_modify, hlt]
 
+/-- a currency declared with a smallest fraction — alone or together with a
+minor unit — and accepted has exactly THAT smallest fraction (also when it is
+not a power of ten: 0.05, 0.25); it is the quantum every amount in that
+currency is rounded to (`C05.currency_quantum_is_smallest_fraction`) -/
+theorem given_smallest_fraction_is_kept (r r' : RegState) (mc : Nat) (sym : Option String)
+    (mi : MinorArg) (v : ℚ) (p : Nat) (uid : Nat)
+    (h : r.newCurrency mc sym mi (.dec v p) = (r', .ok uid)) (hlt : uid < r'.units.length) :
+    (r'.unit uid).smallestFraction = some v ∧ r'.unitQuantum uid = some v := by
+  have key : (r'.unit uid).smallestFraction = some v := by
+    unfold RegState.newCurrency at h
+    have fin : ∀ (x : RegState × Except DeclErr Nat),
+        finishCurrency r x v = (r', .ok uid) → (r'.unit uid).smallestFraction = some v := by
+      intro x hx
+      unfold finishCurrency at hx
+      split at hx
+      · simp at hx
+      · rename_i s' uid' _
+        simp only [Prod.mk.injEq, Except.ok.injEq] at hx
+        obtain ⟨rfl, rfl⟩ := hx
+        simp only [List.length_modify] at hlt
+        simp [RegState.unit, List.getD_eq_getElem?_getD, List.getElem?_modify, hlt]
+    have fr : ∀ (e : Except DeclErr ℚ) (x : RegState × Except DeclErr Nat),
+        (∀ f, e = .ok f → f = v) →
+        (match e with
+          | .error er => (r, Except.error er)
+          | .ok frac => finishCurrency r x frac) = (r', Except.ok uid) →
+        (r'.unit uid).smallestFraction = some v := by
+      intro e x he hx
+      cases e with
+      | error er => simp at hx
+      | ok f => rw [he f rfl] at hx; exact fin x hx
+    split at h
+    · simp at h
+    · simp only at h
+      refine fr _ _ ?_ h
+      intro f hf
+      repeat' (first
+        | (simp at hf; done)
+        | (simp only [Except.ok.injEq] at hf; exact hf.symm)
+        | split at hf)
+  refine ⟨key, ?_⟩
+  unfold RegState.unitQuantum; simp [key]
+
 /-! ### the bundled table -/
 
 theorem iso_table_facts :
